@@ -226,22 +226,7 @@ func (am *Machine) GetOperationResult(operation client.Operation) (client.Operat
 	)
 	// handler gets a pointer to an operation, do necessary things
 	// and write a result (or an error) to .Result field of operation
-	switch fsm.State(operation.Type) {
-	case client.ReinitDKG:
-		err = am.handleReinitDKG(&operation)
-	case dkg_proposal_fsm.StateDkgCommitsAwaitConfirmations:
-		err = am.handleStateDkgCommitsAwaitConfirmations(&operation)
-	case dkg_proposal_fsm.StateDkgDealsAwaitConfirmations:
-		err = am.handleStateDkgDealsAwaitConfirmations(&operation)
-	case dkg_proposal_fsm.StateDkgResponsesAwaitConfirmations:
-		err = am.handleStateDkgResponsesAwaitConfirmations(&operation)
-	case dkg_proposal_fsm.StateDkgMasterKeyAwaitConfirmations:
-		err = am.handleStateDkgMasterKeyAwaitConfirmations(&operation)
-	case signing_proposal_fsm.StateSigningAwaitPartialSigns:
-		err = am.handleStateSigningAwaitPartialSigns(&operation)
-	default:
-		err = fmt.Errorf("invalid operation type: %s", operation.Type)
-	}
+	err = am.handleOperation(&operation)
 
 	// if we have error after handling the operation, we write the error to the operation, so we can feed it to a FSM
 	if err != nil {
@@ -253,6 +238,35 @@ func (am *Machine) GetOperationResult(operation client.Operation) (client.Operat
 	}
 
 	return operation, nil
+}
+
+// handleOperation dispatches the operation to its handler. Operations are built from data which was
+// received from other participants, so a malformed one must end up as a handler error (which is reported
+// back to the node as an error event) and must never crash the machine.
+func (am *Machine) handleOperation(operation *client.Operation) (err error) {
+	defer func() {
+		if r := recover(); r != nil {
+			err = fmt.Errorf("malformed operation %s: %v", operation.Type, r)
+		}
+	}()
+
+	switch fsm.State(operation.Type) {
+	case client.ReinitDKG:
+		err = am.handleReinitDKG(operation)
+	case dkg_proposal_fsm.StateDkgCommitsAwaitConfirmations:
+		err = am.handleStateDkgCommitsAwaitConfirmations(operation)
+	case dkg_proposal_fsm.StateDkgDealsAwaitConfirmations:
+		err = am.handleStateDkgDealsAwaitConfirmations(operation)
+	case dkg_proposal_fsm.StateDkgResponsesAwaitConfirmations:
+		err = am.handleStateDkgResponsesAwaitConfirmations(operation)
+	case dkg_proposal_fsm.StateDkgMasterKeyAwaitConfirmations:
+		err = am.handleStateDkgMasterKeyAwaitConfirmations(operation)
+	case signing_proposal_fsm.StateSigningAwaitPartialSigns:
+		err = am.handleStateSigningAwaitPartialSigns(operation)
+	default:
+		err = fmt.Errorf("invalid operation type: %s", operation.Type)
+	}
+	return err
 }
 
 // writeErrorRequestToOperation writes error to a operation if some bad things happened
